@@ -44,6 +44,22 @@ def generate(rng, tier, idx):
         # (and no parent entry reflects) the entry order of the prior state
         if sc['rounds']:
             sc['rounds'][-1]['update']['force'] = True
+        if rng.random() < 0.3:
+            # one file listed twice in one Manifest with complementary hash sets, the update asking for exactly their
+            # union (so the merged entry is kept as it is, not re-hashed): the merge order follows the entry order
+            cands = [(m, e) for m in sc['manifests'] for e in m['entries']
+                     if e.get('tag') in ('DATA', 'MISC', 'EBUILD') and len(e.get('hashes', [])) >= 2 and 'override' not in e]
+            if cands:
+                m, e = rng.choice(cands)
+                hs = list(e['hashes'])
+                rng.shuffle(hs)
+                k = rng.randrange(1, len(hs))
+                e1 = dict(e, hashes=sorted(hs[:k]))
+                e2 = dict(e, hashes=sorted(hs[k:]))
+                i = m['entries'].index(e)
+                m['entries'] = m['entries'][:i] + [e1] + m['entries'][i + 1:] + [e2]
+                for r in sc['rounds']:
+                    r['update']['hashes'] = sorted(hs)
         sc['canonical'] = '%016x' % rng.getrandbits(64)
     else:
         sc = GU.gen_history(rng)
